@@ -187,7 +187,7 @@ func run(r *hx.Run) error {
 		r.Emit(op, res)
 	}
 	// race-detector run of the same schedule kinds in a child process
-	for _, grp := range []string{"use", "dblclose", "sigsuspend", "sigrender"} {
+	for _, grp := range []string{"use", "dblclose", "sigsuspend", "sizes", "sigrender"} {
 		r.Case("race-" + grp)
 		r.Emit("race "+grp, h.raceRun(grp))
 	}
@@ -1401,6 +1401,57 @@ func sigRenderCase(seed uint64, at int) string {
 	return fmt.Sprintf("%s leak=%d", res, leak)
 }
 
+// ---------- size reports handled by the input goroutine while the main goroutine renders after Resize ----------
+
+// sizeRaceCase: a terminal with in-band resize; the main goroutine calls Resize() + Render() again and again
+// (Render then reads the size the input goroutine stored: reportWinsize -> vx.nextSize under vx.mu) while the
+// terminal sends size reports of both kinds (CSI 48;…t in band, CSI 8;…t / CSI 4;…t solicited form).  Run under
+// the race detector (group `sizes`): every access to nextSize must be under vx.mu (Props.C10Protect.protected_by).
+func sizeRaceCase(seed uint64) string {
+	rng := gen.New(seed)
+	base := goroutines()
+	vx, fc, err := newVx(0, uint32(rng.U64())&(1<<19-1)|1<<14)
+	if err != nil {
+		return "error new"
+	}
+	stop := make(chan struct{})
+	cdone := make(chan struct{})
+	go func() {
+		defer close(cdone)
+		for {
+			select {
+			case <-vx.Events():
+			case <-stop:
+				return
+			}
+		}
+	}()
+	idone := make(chan struct{})
+	go func() {
+		defer close(idone)
+		for i := 0; i < 60; i++ {
+			fc.InjectString(fmt.Sprintf("\x1b[48;%d;%d;100;100t\x1b[8;%d;%dt\x1b[4;100;100t", 20+i%5, 70+i%7, 20+i%5, 70+i%7))
+			if i%4 == 0 {
+				runtime.Gosched()
+			}
+		}
+	}()
+	for i := 0; i < 60; i++ {
+		vx.Resize()
+		vx.Window().Print(vaxis.Segment{Text: fmt.Sprint(i)})
+		vx.Render()
+	}
+	<-idone
+	ok, pmsg := withBound(vx.Close)
+	close(stop)
+	<-cdone
+	leak := waitGoroutines(base, goneBound)
+	if !ok || pmsg != "" {
+		return fmt.Sprintf("close-hang leak=%d", leak)
+	}
+	return fmt.Sprintf("ok leak=%d", leak)
+}
+
 // ---------- F33: concurrent Close ----------
 
 func dblCloseCase(seed uint64, n int) string {
@@ -1674,6 +1725,11 @@ func raceChild() {
 		if grp == "dblclose" {
 			res = dblCloseCase(rng.U64(), rng.Range(2, 3))
 			if !strings.HasPrefix(res, "close-ok") {
+				bad++
+			}
+		} else if grp == "sizes" {
+			res = sizeRaceCase(rng.U64())
+			if !strings.HasPrefix(res, "ok ") {
 				bad++
 			}
 		} else if grp == "sigrender" {
